@@ -23,7 +23,7 @@ FLOOR_TAGS = ["op:" + o for o in OPS] + ["variant:2d", "variant:ragged", "varian
                                          "cs:pos", "cs:neg", "side:L", "side:R", "red:argmax", "red:mean", "col:sum", "col:mean", "col:col_counts", "col:any", "j:neg",
                                          "kind:b", "kind:i", "kind:u", "kind:f"]
 FLOOR_MONITORS = ["c17:compare", "inv:rla", "inv:ragged"]
-N_RANDOM = {"quick": 10000, "thorough": 300000}
+N_RANDOM = {"quick": 20000, "thorough": 300000}
 
 
 def setup(lib):
